@@ -241,6 +241,11 @@ fn alpha_core(cfg: &Cfg) -> Vec<Op> {
         c(Cup(Some(99), Some(99))),
         c(Decstbm(Some(1), Some(rows.saturating_sub(1).max(2)))),
         c(sgr1(41)),
+        // blanks that were TYPED (with whatever pen) are characters like any other
+        t(" "),
+        c(sgr1(4)),
+        // a soft reset switches insert mode off like RM 4 does
+        c(Decstr),
     ]
 }
 
